@@ -104,7 +104,7 @@ def _layout(draw, d_strategy=None, n_strategy=None, widths_pool=None):
 @st.composite
 def _unsupported(draw):
     spec = draw(_layout())
-    kind = draw(st.sampled_from(['mode', 'ascii', 'unaligned', 'byteord', 'float_width', 'too_wide']))
+    kind = draw(st.sampled_from(['mode', 'ascii', 'unaligned', 'byteord', 'byteord', 'byteord', 'float_width', 'too_wide']))
     D = len(spec['widths'])
     if kind == 'mode':
         spec['mode'] = draw(st.sampled_from(['H', 'C', 'U']))
@@ -151,6 +151,13 @@ def curated(tier):
             jobs.append(dict(base, version=version, datatype='I', widths=[16, 16, 16], ranges=[65536, 65536, 1024],
                              events=ev16, offsets_in=offsets_in, end_plus_one=end_plus_one, pad=[3, gap, 5],
                              curated='far_data'))
+    # more events than 2**16, in a layout decoded by the generic (mixed / odd width) path
+    rng = np.random.Generator(np.random.PCG64(3))
+    big = np.column_stack([rng.integers(0, 65536, 70001), rng.integers(0, 2 ** 24, 70001)]).tolist()
+    for little in (True, False):
+        jobs.append(dict(base, little=little, byteord='1,2,3,4' if little else '4,3,2,1', version='FCS3.0', datatype='I',
+                         widths=[16, 24], ranges=[65536, 2 ** 24], events=big, offsets_in='header', end_plus_one=False,
+                         pad=[0, 4, 0], curated='many_events'))
     return jobs
 
 
